@@ -32,7 +32,11 @@ def save_meta(d, m):
 
 def do_import(pid):
     src = "/tmp/mut-%s-out" % pid
-    for v in "AB":
+    variants = "AB"
+    if not os.path.isdir(src) or not any(os.path.exists(os.path.join(src, v + ".diff")) for v in "AB"):
+        src = "/tmp/mut2-%s-out" % pid      # second round: variants C and D
+        variants = "CD"
+    for v in variants:
         if not os.path.exists(os.path.join(src, v + ".diff")):
             continue
         d = os.path.join(SEED, "%s_%s" % (pid, v))
